@@ -15,7 +15,7 @@ from ..core import AnalysisError, NotConstant, Repo, Report, call_name, calls_in
 from ..dataflow import DefUse
 from ..grammar import load_grammar
 from ..sites import guard_chain
-from .util import canon
+from .util import canon, cguards
 
 NEGATION = {"<": ">=", "<=": ">", ">": "<=", ">=": "<", "==": "!=", "!=": "==", "=": "!=", "≠": "="}
 
@@ -241,3 +241,20 @@ def run(repo: Repo, rep: Report, tier: str) -> None:
     from .shared import borrow as _borrow5
     _borrow5(repo, rep, "C06", "C06-R9", "C05-R7", "whatever produces a latch's value, set and reset signals stays in place: the usage index records the latch write's operands as consumers",
              select=lambda o: "IRLatchWrite." in o.construct, floor=5)
+
+    # ---------------- R8 ---------------------------------------------------------------
+    rep.rule("C05-R8", "a read of the cell lowered before its latch write is served by the latch as well: the latch write re-points every recorded read of this cell "
+             "(the gates such a read was first attached to are removed as unused)")
+    hlw = mb.methods["handle_latch_write"]
+    chl = canon(hlw)
+    loops8 = [n for n in walk_local(hlw.node) if isinstance(n, ast.For) and chl.text(n.iter) == "self._read_sources.items()"]
+    ok8 = False
+    for lp8 in loops8:
+        for k8 in calls_in(lp8, "set_source"):
+            a0, a1 = chl.text(k8.args[0]), chl.text(k8.args[1])
+            own = any(pol and g in ("ELEM(self._read_sources.items())[1] == op.memory_id", "op.memory_id == ELEM(self._read_sources.items())[1]") for g, pol in cguards(hlw, k8))
+            if a0 == "ELEM(self._read_sources.items())[0]" and ("latch_combinator" in a1 or "multiplier_combinator" in a1) and own:
+                ok8 = True
+    rep.check(ok8, "C05-R8", "handle_latch_write re-points the reads of its own cell at the latch output",
+              "for read in _read_sources: if it is this cell: set_source(read, latch output)" if ok8 else
+              "no re-pointing: `Memory m; Signal early = m.read(); m.write(1, set=..., reset=...);` leaves `early` attached to the removed hold gate, it reads 0 forever", hlw.loc())
